@@ -112,3 +112,17 @@ Definition kf_C32 (i : val) : Z :=
   | Some (mr, cs) => if all_wf cs && existsb empty_headers cs then 1 else 0
   | None => 0
   end.
+
+(* executable well-formedness of an input: decodes; the wire consists of bytes and is shorter than 2^24 octets (so no
+   Write call hits ErrFrameTooLarge); the reading loop has fuel for every command; and when every command is a legal
+   Write call, each described frame fits the largest read size *)
+Definition len_ok (c : wcmd) : bool :=
+  match expected c with Some (h, _) => h_len h <=? 16777215 | None => false end.
+Definition wf_C32 (i : val) : bool :=
+  match dec_input i with
+  | Some (mr, cs) =>
+    let wire := fst (write_all cs) in
+    bytes_ok wire && (blen wire <? 16777216) && (length cs <? fuel_of wire)%nat &&
+    (if all_wf cs then forallb len_ok cs else true)
+  | None => false
+  end.
